@@ -1067,6 +1067,9 @@ func histCrash(t *testing.T, tp *simrt.Tape, cfg simrt.Config, sc *histScenario,
 	v := victimPlan{Kind: kinds[tp.Draw(simrt.SGen, len(kinds))], Writes: tp.Draw(simrt.SGen, 4), Dag: tp.Draw(simrt.SGen, len(sc.Names)), Run: tp.Draw(simrt.SGen, 8), Days: tp.Draw(simrt.SGen, 2), To: tp.Draw(simrt.SGen, len(dagNames))}
 	sc.Victim = victimOps(v)
 	reader := sc.Variant == "reader"
+	// in half of the crash scenarios the long-lived cached instance (the server) keeps polling while the
+	// victim runs, so that the kill can land between a cache load and the write it raced with
+	pollDuringCrash := !reader && (v.Kind == "run" || v.Kind == "update") && chance(tp, 1, 2)
 
 	type armed struct {
 		k    int
@@ -1154,6 +1157,17 @@ func histCrash(t *testing.T, tp *simrt.Tape, cfg simrt.Config, sc *histScenario,
 				}
 				return 0
 			})
+			if pollDuringCrash {
+				w.Spawn(simrt.CurProc(), "poller", []string{"poller"}, baseEnv(nil), workDir, true, func(p *simrt.Proc) int {
+					for n := 0; victim.Alive() && n < 400; n++ {
+						for _, name := range h.nameOf {
+							_ = h.server.ReadStatusRecent(dagFile(name), 2)
+						}
+						w.Probe("poll_rounds_during_crash_scenario")
+					}
+					return 0
+				})
+			}
 			if reader && v.Kind == "update2" {
 				// a tight poller on the long-lived cached instance: most of its time is spent between "read the
 				// file" and "note its size and mtime", which is where a write of the other process must not be lost
